@@ -154,8 +154,8 @@ func (j jarRW) ReadState(r *http.Request) (authboss.ClientState, error) {
 	if err := j.S.point(j.name() + ".ReadState"); err != nil {
 		return nil, err
 	}
-	defer j.S.guard()()
-	b := j.S.W.Browsers[r.Header.Get("X-Browser")]
+	defer j.S.guardB(r.Header.Get("X-Browser"))()
+	b := j.S.worldB(r.Header.Get("X-Browser")).Browsers[r.Header.Get("X-Browser")]
 	if j.S.Cfg.NilEmptyState && (b == nil || len(j.jar(b)) == 0) {
 		return nil, nil
 	}
@@ -181,9 +181,9 @@ func (j jarRW) WriteState(w http.ResponseWriter, _ authboss.ClientState, evs []a
 	if err := j.S.point(j.name() + ".WriteState"); err != nil {
 		return err
 	}
-	defer j.S.guard()()
 	name := w.Header().Get("X-Browser-Echo")
-	b := j.S.W.Browsers[name]
+	defer j.S.guardB(name)()
+	b := j.S.worldB(name).Browsers[name]
 	if b == nil {
 		return nil
 	}
